@@ -9,7 +9,8 @@ package checks
 // then position of the confirming entry in that momentum's content, descendants after their parent).
 // Workloads: competing receive attempts (same account twice, foreign account, replacement of a pooled
 // receive, re-submission after displacement), many callers of one contract with missed slots, the
-// same send received on two forks followed by a reorganisation, restarts.
+// same send received on two forks followed by a reorganisation, restarts; a third party offering well-formed
+// contract receive blocks for other inbox entries than the one in line (inbox:* cases, see below).
 
 import (
 	"bytes"
@@ -17,10 +18,13 @@ import (
 	"math/big"
 	"math/rand"
 	"os"
+	"regexp"
 	"sort"
+	"strings"
 
 	g "github.com/zenon-network/go-zenon/chain/genesis/mock"
 	"github.com/zenon-network/go-zenon/chain/nom"
+	"github.com/zenon-network/go-zenon/common/db"
 	"github.com/zenon-network/go-zenon/common/types"
 	"github.com/zenon-network/go-zenon/vm/constants"
 	"github.com/zenon-network/go-zenon/vm/embedded/definition"
@@ -37,6 +41,10 @@ func init() {
 		Level: "exploration",
 		Rule: "hist:* cases are seeded histories with competing receive attempts and interleaved contract calls, scanned after every momentum on the producer and at the end on a follower before and after a restart; " +
 			"fork:* cases let the same send be received on two competing branches and scan the node that switched, then try to receive again; " +
+			"inbox:* cases send groups of identical calls to embedded contracts and let a third party offer (unsigned) contract receive blocks to the producer (even cases) or to a follower (odd cases) while receives are pooled and later entries wait: " +
+			"every pooled receive, and the one the VM would generate next, with another inbox entry (later, earlier, already confirmed) as origin and the hash recomputed, at the height the pool already has a candidate for or on the frontier, " +
+			"between two steps of the generator, before it (receive #1 made by the third party with the real supervisor) and after it, via bridge gossip, supervisor+pool and a momentum signed by the elected pillar (forced pool insert), with restarts; " +
+			"scanned incl. pool after every accepted offer and every momentum, on a follower at the end (there also: no inbox entry left behind once the chain is quiescent), and compared with a reference node that never saw the third party as long as all its blocks were refused; " +
 			"distinct_nontrivial counts distinct (attack kind, outcome) pairs and distinct (contract, inbox length class) pairs whose order was checked",
 		Cases:            c04Cases,
 		Run:              c04Run,
@@ -46,6 +54,8 @@ func init() {
 		Assumptions: []string{
 			"post-enforcement regime (receiver-mismatch enforcement height 0); the pre-enforcement regime and a mid-run boundary are not exercised",
 			"intra-momentum confirmation order is taken from the momentum's own content (chain data), not from the sequencer keys being checked",
+			"inbox:* — the third party cannot run the VM on a state the supervisor refuses, so its blocks are exact only for entries whose call has the same effect as the one in line (identical amount, token, data; sender where the method depends on it); other variants are offered too but a VM comparison would refuse them anyway",
+			"inbox:* — a node that accepted a block of the third party is no longer compared with the reference; from then on only the ledger oracles decide",
 		},
 	})
 }
@@ -64,6 +74,13 @@ func c04Cases(tier string, seed int64) []string {
 	}
 	for i := 0; i < f/2; i++ {
 		l = append(l, fmt.Sprintf("forkp:%d", i))
+	}
+	nInbox := f
+	if tier == "thorough" {
+		nInbox = f / 4
+	}
+	for i := 0; i < nInbox; i++ {
+		l = append(l, fmt.Sprintf("inbox:%d", i))
 	}
 	return l
 }
@@ -196,7 +213,11 @@ func c04ForkProducer(c *fw.C, caseID string, idx int) {
 }
 
 // c04Oracle applies both ledger oracles. Returns false after reporting a violation.
-func c04Oracle(c *fw.C, l *scan.Ledger, where string) bool {
+func c04Oracle(c *fw.C, l *scan.Ledger, where string) bool { return c04OracleEx(c, l, where, false) }
+
+// c04OracleEx: drained — the chain is quiescent (the last momentum confirmed nothing and nothing is pooled): every
+// entry of every inbox must have been received, an entry still waiting now was skipped for good.
+func c04OracleEx(c *fw.C, l *scan.Ledger, where string, drained bool) bool {
 	byHash := l.BlockByHash()
 	recv := map[types.Hash][]*nom.AccountBlock{}
 	for _, acc := range l.Accounts {
@@ -290,6 +311,15 @@ func c04Oracle(c *fw.C, l *scan.Ledger, where string) bool {
 				return false
 			}
 		}
+		if drained {
+			c.Eval(1)
+			if len(got) < len(exp) {
+				c.Violation("contract-inbox-entry-never-received", map[string]interface{}{"where": where, "contract": a.String(), "received": len(got), "sent": len(exp),
+					"first_entry_left_behind": exp[len(got)].String()})
+				return false
+			}
+			c.Count("inboxes_seen_fully_drained", 1)
+		}
 	}
 	return true
 }
@@ -302,6 +332,10 @@ func c04Run(c *fw.C, caseID string) {
 	}
 	if n, _ := fmt.Sscanf(caseID, "forkp:%d", &idx); n == 1 {
 		c04ForkProducer(c, caseID, idx)
+		return
+	}
+	if n, _ := fmt.Sscanf(caseID, "inbox:%d", &idx); n == 1 {
+		c04Inbox(c, caseID, idx)
 		return
 	}
 	r := c.Rand(caseID)
@@ -609,4 +643,657 @@ func c04OutOfOrderContractReceive(c *fw.C, n *simnet.Node, r *rand.Rand) {
 		c04Note(c, "attack/out-of-order-contract-receive/"+res)
 		return
 	}
+}
+
+// ---- inbox:* — a third party offers contract receive blocks -------------------------------------------------------
+//
+// Receive blocks of embedded contracts carry no signature: whoever knows the state can build one and offer it. The
+// honest generator only ever builds the receive of the entry at the front of the inbox on top of the pool frontier;
+// the adversary below offers everything else that is well-formed: for every unconfirmed receive block of a contract
+// (and for the block the VM would generate next on the pool frontier) the SAME block with another inbox entry as its
+// origin — a later one (skipping), an earlier one or an already confirmed one (repeating) — at the same place in the
+// contract chain, i.e. on an older point of the chain whose height the pool already has a candidate for, or on the
+// frontier. Calls with identical (amount, token, data) are sent in groups, so that for many pairs the VM result is
+// the same and the crafted block is, bit for bit, what the VM generates for that entry at that place. The blocks are
+// offered while the generator is between two steps (first receive pooled, later entries waiting), before the
+// generator started (the adversary makes receive #1 itself, with the real supervisor, ahead of the generator), and
+// after it finished; over three ingress paths (bridge gossip, supervisor + pool as the RPC/broadcaster does, inside a
+// momentum signed by the elected pillar, which uses the forced pool insert).
+//
+// Oracles: (1) the whole-ledger oracle above, on the producer incl. pool after every accepted offer and every
+// momentum, on a follower at the end, before and after a restart, there also: no inbox entry left behind once the
+// chain is quiescent; (2) differential: a reference producer R gets the same user blocks and the same slots but never
+// sees the adversary — as long as every crafted block was refused, both must produce the same momentums, and the
+// contract chains and balances must be equal at the end.
+
+var c04Paths = []string{"gossip", "pool", "momentum"}
+
+type c04Adv struct {
+	c       *fw.C
+	n       *simnet.Node
+	role    string // what n is: "producer" or "follower"
+	r       *rand.Rand
+	offers  int  // rotates the ingress path
+	budget  int  // activations left until the next momentum
+	early   bool // this momentum: act before the generator starts
+	busy    bool
+	touched bool // a crafted block got in (or the pool changed while one was offered): R is no longer comparable
+	stop    bool // a violation was reported
+}
+
+type c04InboxView struct {
+	addr    types.Address
+	pooled  []*nom.AccountBlock // unconfirmed receive blocks of the contract, chain order
+	entries []*nom.AccountBlock // inbox entries (send blocks) from the first one the CONFIRMED contract chain has not received on
+	before  *nom.AccountBlock   // the entry in front of entries[0]: received and confirmed
+}
+
+func (a *c04Adv) view(addr types.Address) *c04InboxView {
+	st := a.n.Chain.GetFrontierMomentumStore()
+	mb := st.GetAccountMailbox(addr)
+	size := mb.SequencerSize()
+	front := st.GetAccountStore(addr).SequencerFront(mb)
+	if front == nil {
+		return nil
+	}
+	var idx uint64
+	for i := size; i >= 1; i-- {
+		if h := mb.SequencerByHeight(i); h != nil && *h == *front {
+			idx = i
+			break
+		}
+	}
+	if idx == 0 {
+		return nil
+	}
+	v := &c04InboxView{addr: addr}
+	get := func(i uint64) *nom.AccountBlock {
+		h := mb.SequencerByHeight(i)
+		if h == nil {
+			return nil
+		}
+		b, err := st.GetAccountBlock(*h)
+		if err != nil {
+			return nil
+		}
+		return b
+	}
+	for i := idx; i <= size && i < idx+6; i++ {
+		b := get(i)
+		if b == nil {
+			return nil
+		}
+		v.entries = append(v.entries, b)
+	}
+	if idx > 1 {
+		v.before = get(idx - 1)
+	}
+	for _, b := range a.n.Chain.GetUncommittedAccountBlocksByAddress(addr) {
+		if b.BlockType == nom.BlockTypeContractReceive {
+			v.pooled = append(v.pooled, b)
+		}
+	}
+	return v
+}
+
+// generate asks the real supervisor for the receive block of send on the pool frontier, without inserting it.
+func (a *c04Adv) generate(send *nom.AccountBlock) (b *nom.AccountBlock) {
+	defer func() {
+		if rec := recover(); rec != nil {
+			b = nil
+		}
+	}()
+	ex, err := a.n.Sup.GenerateAutoReceive(send)
+	if err != nil || ex == nil || ex.Transaction == nil {
+		return nil
+	}
+	return simnet.CloneBlock(ex.Transaction.Block)
+}
+
+// c04Swap: base with another origin. The acknowledged momentum of a contract receive is the one that confirmed its
+// origin, so it is moved along (with the descendants, whose hashes link up to the block).
+func c04Swap(n *simnet.Node, base, target *nom.AccountBlock) *nom.AccountBlock {
+	b := simnet.CloneBlock(base)
+	b.FromBlockHash = target.Hash
+	st := n.Chain.GetFrontierMomentumStore()
+	if h, err := st.GetBlockConfirmationHeight(target.Hash); err == nil && h != 0 && h != b.MomentumAcknowledged.Height {
+		if m, err := st.GetMomentumByHeight(h); err == nil && m != nil {
+			b.MomentumAcknowledged = m.Identifier()
+			if len(b.DescendantBlocks) > 0 {
+				prev := b.DescendantBlocks[0].PreviousHash
+				for _, d := range b.DescendantBlocks {
+					d.MomentumAcknowledged = m.Identifier()
+					d.PreviousHash = prev
+					d.Hash = d.ComputeHash()
+					prev = d.Hash
+				}
+				b.PreviousHash = prev
+			}
+		}
+	}
+	b.Hash = b.ComputeHash()
+	return b
+}
+
+func c04CallClass(x, y *nom.AccountBlock) string {
+	if x.ToAddress == y.ToAddress && x.TokenStandard == y.TokenStandard && x.Amount.Cmp(y.Amount) == 0 && bytes.Equal(x.Data, y.Data) {
+		if x.Address == y.Address {
+			return "identical-call-same-sender"
+		}
+		return "identical-call-other-sender"
+	}
+	return "different-call"
+}
+
+// c04ForgedMomentum: the next momentum as a peer would serve it — right height, link, slot and the signature of the
+// pillar elected for the slot — carrying b. Its state hash cannot be right for a block honest nodes refuse; what
+// matters is what the blocks it carries leave behind (the bridge inserts them with the forced pool insert first).
+func c04ForgedMomentum(n *simnet.Node, b *nom.AccountBlock) *nom.DetailedMomentum {
+	f := n.Frontier()
+	t := n.NextSlot(0)
+	group := append(append([]*nom.AccountBlock{}, b.DescendantBlocks...), b)
+	m := &nom.Momentum{Version: 1, ChainIdentifier: f.ChainIdentifier, PreviousHash: f.Hash, Height: f.Height + 1, TimestampUnix: uint64(t.Unix()),
+		Content: nom.NewMomentumContent(group), ChangesHash: types.NewHash([]byte("state unknown to the forger"))}
+	m.EnsureCache()
+	m.Hash = m.ComputeHash()
+	if p, err := n.ProducerFor(t); err == nil && p != nil {
+		if kp := simnet.KeyFor(*p); kp != nil {
+			m.PublicKey = kp.Public
+			m.Signature = kp.Sign(m.Hash.Bytes())
+		}
+	}
+	return &nom.DetailedMomentum{Momentum: m, AccountBlocks: group}
+}
+
+var c04HexRe = regexp.MustCompile(`[0-9a-fA-F]{16,}|z1[0-9a-z]{38}|[0-9]+`)
+
+func c04Reason(err error) string {
+	if err == nil {
+		return "no error"
+	}
+	s := c04HexRe.ReplaceAllString(err.Error(), "#")
+	if i := strings.Index(s, ";"); i > 0 {
+		s = s[:i]
+	}
+	if len(s) > 110 {
+		s = s[:110]
+	}
+	return s
+}
+
+func (a *c04Adv) poolSig(addr types.Address) string {
+	var sb strings.Builder
+	for _, b := range a.n.Chain.GetUncommittedAccountBlocksByAddress(addr) {
+		sb.WriteString(b.Hash.String()[:16])
+		sb.WriteByte(' ')
+	}
+	return sb.String()
+}
+
+// offer hands b to the node over the next ingress path. crafted: b is not a block the in-order rule allows.
+func (a *c04Adv) offer(b *nom.AccountBlock, kind, class, when string, crafted bool) {
+	if a.stop {
+		return
+	}
+	n := a.n
+	path := c04Paths[a.offers%len(c04Paths)]
+	a.offers++
+	before := a.poolSig(b.Address)
+	var err error
+	panicked := ""
+	func() {
+		defer func() {
+			if rec := recover(); rec != nil {
+				panicked = fmt.Sprint(rec)
+			}
+		}()
+		switch path {
+		case "gossip":
+			err = n.Bridge.AddAccountBlocks([]*nom.AccountBlock{b})
+		case "pool":
+			var tx *nom.AccountBlockTransaction
+			if tx, err = n.Sup.ApplyBlock(b); err == nil {
+				ins := n.Chain.AcquireInsert("c04 adversary")
+				err = n.Chain.AddAccountBlockTransaction(ins, tx)
+				ins.Unlock()
+			}
+		case "momentum":
+			_, err = n.InsertChain([]*nom.DetailedMomentum{c04ForgedMomentum(n, b)})
+		}
+	}()
+	a.c.Eval(1)
+	a.c.Count("inbox_adversary_offers", 1)
+	a.c.Count("inbox_adversary_offers_via_"+path, 1)
+	if panicked != "" {
+		a.c.Violation("contract-receive-offer-panics "+path, map[string]interface{}{"kind": kind, "panic": panicked})
+		a.stop = true
+		return
+	}
+	stored := n.Chain.GetPatch(b.Address, b.Identifier()) != nil
+	changed := before != a.poolSig(b.Address)
+	outcome := "refused"
+	if stored {
+		outcome = "accepted"
+	} else if changed {
+		outcome = "refused-but-pool-changed"
+	}
+	if !crafted {
+		c04Note(a.c, fmt.Sprintf("inbox-adv/%s/%s/%s/%s", kind, when, path, outcome))
+		return
+	}
+	c04Note(a.c, fmt.Sprintf("inbox-adv/%s/%s/%s", kind, class, outcome))
+	c04Note(a.c, fmt.Sprintf("inbox-adv/%s/via-%s/%s", when, path, outcome))
+	if !stored && !changed {
+		a.c.SetAdd("inbox_adversary_refusal_reasons", c04Reason(err))
+		a.c.Count("inbox_adversary_refused", 1)
+		return
+	}
+	// the pool holds something else than before: the reference node is no longer comparable, the ledger decides
+	a.touched = true
+	a.c.Count("inbox_adversary_changed_the_pool", 1)
+	l, lerr := c01PoolLedger(n)
+	if lerr != nil {
+		a.c.Violation("ledger-scan-failed", lerr.Error())
+		a.stop = true
+		return
+	}
+	if !c04OracleEx(a.c, l, fmt.Sprintf(a.role+" incl. pool, right after a third party offered a contract receive (%s, %s, %s, via %s: %s, error %q)", kind, class, when, path, outcome, c04Reason(err)), false) {
+		a.stop = true
+	}
+}
+
+// attack offers every well-formed out-of-order variant for the contract's current position.
+func (a *c04Adv) attack(v *c04InboxView, when string) {
+	type base struct {
+		b   *nom.AccountBlock
+		pos int
+		at  string
+	}
+	var bases []base
+	for i, b := range v.pooled {
+		if i >= len(v.entries) || b.FromBlockHash != v.entries[i].Hash {
+			return // the pool is not the honest one any more (only after an accepted offer)
+		}
+		if i < 4 {
+			bases = append(bases, base{b, i, "at-pooled-height"})
+		}
+	}
+	if len(v.pooled) < len(v.entries) {
+		if next := a.generate(v.entries[len(v.pooled)]); next != nil {
+			bases = append(bases, base{next, len(v.pooled), "on-frontier"})
+		}
+	}
+	for _, bs := range bases {
+		for j, e := range v.entries {
+			if j == bs.pos {
+				continue
+			}
+			kind := "later-entry-"
+			if j < bs.pos {
+				kind = "earlier-entry-"
+			}
+			a.offer(c04Swap(a.n, bs.b, e), kind+bs.at, c04CallClass(v.entries[bs.pos], e), when, true)
+		}
+		if v.before != nil {
+			a.offer(c04Swap(a.n, bs.b, v.before), "confirmed-entry-"+bs.at, c04CallClass(v.entries[bs.pos], v.before), when, true)
+		}
+	}
+	if len(bases) > 0 {
+		a.c.Count("inbox_adversary_activations_"+when, 1)
+		a.c.Distinct(fmt.Sprintf("inbox-adv-position/%s/pooled=%d/waiting=%d", when, len(v.pooled), c04min(len(v.entries)-len(v.pooled), 3)))
+	}
+}
+
+func c04min(a, b int) int {
+	if a < b {
+		return a
+	}
+	return b
+}
+
+// afterPooledReceive: the generator (or anybody) just put a receive of addr into the pool.
+func (a *c04Adv) afterPooledReceive(addr types.Address) {
+	if a.busy || a.stop || a.budget <= 0 {
+		return
+	}
+	a.busy = true
+	defer func() { a.busy = false }()
+	v := a.view(addr)
+	if v == nil || len(v.entries) <= len(v.pooled) {
+		return // nothing waiting behind the pooled receives
+	}
+	a.budget--
+	a.attack(v, "between-generator-steps")
+}
+
+// beforeGenerator: a momentum was inserted, the generator has not started. For a contract with several entries waiting
+// the adversary builds receive #1 itself and gets it into the pool ahead of the generator, then offers the variants.
+func (a *c04Adv) beforeGenerator() {
+	if a.busy || a.stop || !a.early {
+		return
+	}
+	a.busy = true
+	defer func() { a.busy = false }()
+	for _, addr := range types.EmbeddedContracts {
+		v := a.view(addr)
+		if v == nil || len(v.pooled) != 0 || len(v.entries) < 2 {
+			continue
+		}
+		first := a.generate(v.entries[0])
+		if first == nil {
+			continue
+		}
+		a.offer(first, "valid-next-ahead-of-generator", "", "before-generator", false)
+		if v = a.view(addr); v != nil && len(v.pooled) == 1 {
+			a.attack(v, "before-generator")
+		}
+		return
+	}
+}
+
+// afterGenerator: between two momentums, everything the generator could do is pooled.
+func (a *c04Adv) afterGenerator() {
+	if a.busy || a.stop {
+		return
+	}
+	a.busy = true
+	defer func() { a.busy = false }()
+	for _, addr := range types.EmbeddedContracts {
+		if v := a.view(addr); v != nil && len(v.pooled) >= 2 {
+			a.attack(v, "generator-done")
+			return
+		}
+	}
+}
+
+// c04IdenticalCalls submits a group of calls with the same (contract, token, amount, data), by one sender or several.
+func c04IdenticalCalls(c *fw.C, n *simnet.Node, r *rand.Rand, users []*wallet.KeyPair) {
+	z := int64(g.Zexp)
+	var id types.Hash
+	r.Read(id[:])
+	to, zts, amt, data, name := types.AcceleratorContract, types.ZnnTokenStandard, big.NewInt(int64(1+r.Intn(3))*z), definition.ABICommon.PackMethodPanic(definition.DonateMethodName), "accelerator.Donate"
+	switch r.Intn(9) {
+	case 0:
+		zts = types.QsrTokenStandard
+	case 1:
+		to, name = types.LiquidityContract, "liquidity.Donate"
+	case 2:
+		to, amt, data, name = types.PlasmaContract, big.NewInt(0), definition.ABIPlasma.PackMethodPanic(definition.CancelFuseMethodName, id), "plasma.CancelFuse(unknown)"
+	case 3:
+		to, amt, data, name = types.StakeContract, big.NewInt(0), definition.ABIStake.PackMethodPanic(definition.CancelStakeMethodName, id), "stake.Cancel(unknown)"
+	case 4:
+		to, zts, amt, data, name = types.PillarContract, types.QsrTokenStandard, big.NewInt(int64(1+r.Intn(20))*z), definition.ABIPillars.PackMethodPanic(definition.DepositQsrMethodName), "pillar.DepositQsr"
+	case 5:
+		to, amt, data, name = types.PillarContract, big.NewInt(0), definition.ABIPillars.PackMethodPanic(definition.DelegateMethodName, g.Pillar2Name), "pillar.Delegate"
+	case 6:
+		to, amt, data, name = types.TokenContract, big.NewInt(int64(1+r.Intn(1000))), definition.ABIToken.PackMethodPanic(definition.BurnMethodName), "token.Burn"
+	case 7:
+		to, amt, data, name = types.StakeContract, big.NewInt(0), definition.ABICommon.PackMethodPanic(definition.CollectRewardMethodName), "stake.CollectReward"
+	}
+	m := 2 + r.Intn(3)
+	same := r.Intn(2) == 0
+	u := users[r.Intn(len(users))]
+	sent := 0
+	for i := 0; i < m; i++ {
+		if !same {
+			u = users[r.Intn(len(users))]
+		}
+		if _, err := n.Send(u, to, zts, amt, data); err == nil {
+			sent++
+		}
+	}
+	if sent >= 2 {
+		c.Count("inbox_groups_of_identical_calls", 1)
+		c.SetAdd("inbox_identical_call_kinds", name)
+	}
+}
+
+// c04ContractSummary: what each embedded contract received (in chain order) and holds.
+func c04ContractSummary(l *scan.Ledger) map[string]string {
+	out := map[string]string{}
+	for _, a := range types.EmbeddedContracts {
+		acc := l.Accounts[a]
+		if acc == nil {
+			continue
+		}
+		var sb strings.Builder
+		for _, b := range acc.Blocks {
+			if b.BlockType == nom.BlockTypeContractReceive {
+				sb.WriteString(b.FromBlockHash.String()[:12] + " ")
+			}
+		}
+		var zs []string
+		for zts, v := range acc.Balances {
+			if v != nil && v.Sign() != 0 {
+				zs = append(zs, zts.String()+"="+v.String())
+			}
+		}
+		sort.Strings(zs)
+		out[a.String()] = fmt.Sprintf("blocks=%d received=[%s] balances=%v", len(acc.Blocks), sb.String(), zs)
+	}
+	return out
+}
+
+func c04Inbox(c *fw.C, caseID string, idx int) {
+	r := c.Rand(caseID)
+	base := c.ScratchDir("c04i")
+	defer os.RemoveAll(base)
+	P := simnet.Open("P", base+"/P", simnet.MockGenesis(), g.PillarKeys)
+	defer P.Stop()
+	// The node the blocks are offered to is the producer itself (even cases) or a node that only follows (odd cases:
+	// it gets the producer's momentums and contract receives as they are broadcast; the producer is never offered
+	// anything and is the reference itself).
+	followerVictim := idx%2 == 1
+	V, role := P, "producer"
+	var R *simnet.Node
+	if followerVictim {
+		V, role = simnet.Open("V", base+"/V", simnet.MockGenesis(), nil), "follower"
+		defer V.Stop()
+	} else {
+		R = simnet.Open("R", base+"/R", simnet.MockGenesis(), g.PillarKeys)
+		defer R.Stop()
+	}
+	ref := func() *simnet.Node {
+		if followerVictim {
+			return P
+		}
+		return R
+	}
+	w := simnet.NewWorkload(rand.New(rand.NewSource(r.Int63())), P)
+	w.ContractWeight = 45
+	adv := &c04Adv{c: c, n: V, role: role, r: rand.New(rand.NewSource(r.Int63())), offers: idx}
+	var mirror []*nom.AccountBlock
+	failed := false
+	P.OnBlock = func(b *nom.AccountBlock, _ db.Patch, err error) {
+		if err != nil || failed {
+			return
+		}
+		if !types.IsEmbeddedAddress(b.Address) {
+			if !followerVictim {
+				mirror = append(mirror, simnet.CloneBlock(b))
+			}
+			return
+		}
+		if b.BlockType != nom.BlockTypeContractReceive {
+			return
+		}
+		if followerVictim {
+			// the producer broadcasts its contract receive
+			if err := V.Bridge.AddAccountBlocks([]*nom.AccountBlock{simnet.CloneBlock(b)}); err != nil && !adv.touched {
+				c.Violation("follower-refuses-producers-contract-receive", map[string]interface{}{"err": c04Reason(err), "height": P.Height()})
+				failed = true
+				return
+			}
+		}
+		adv.afterPooledReceive(b.Address)
+	}
+	P.OnMomentum = func(m *nom.Momentum, err error) {
+		if err != nil || failed {
+			return
+		}
+		if followerVictim {
+			// the producer broadcasts its momentum
+			if _, err := V.InsertChain(simnet.CloneBatch(P.Range(m.Height, m.Height))); err != nil {
+				c.Violation("follower-refuses-producers-momentum", map[string]interface{}{"err": c04Reason(err), "height": m.Height, "after_third_party_changed_its_pool": adv.touched})
+				failed = true
+				return
+			}
+		}
+		adv.beforeGenerator()
+	}
+	refAlive := true
+	// compareRef: as long as no crafted block got in, the node must stand where the reference (which never saw the
+	// third party) stands
+	compareRef := func(when string) bool {
+		if !refAlive {
+			return true
+		}
+		if adv.touched {
+			refAlive = false
+			return true
+		}
+		c.Eval(1)
+		if V.Frontier().Hash == ref().Frontier().Hash {
+			c.Count("inbox_momentums_equal_to_reference", 1)
+			return true
+		}
+		refAlive = false
+		lp, e1 := scan.Scan(V.Mgr.Frontier())
+		lr, e2 := scan.Scan(ref().Mgr.Frontier())
+		if e1 != nil || e2 != nil {
+			c.Violation("ledger-scan-failed", fmt.Sprint(e1, e2))
+			return false
+		}
+		sp, sr := c04ContractSummary(lp), c04ContractSummary(lr)
+		for k, vp := range sp {
+			if sr[k] != vp {
+				c.Violation("refused-contract-receives-changed-the-contract-ledger", map[string]interface{}{"when": when, "role": role, "height": V.Height(), "contract": k,
+					"node_offered_the_blocks": vp, "reference_node": sr[k]})
+				return false
+			}
+		}
+		c.Inconclusive(fmt.Sprintf("%s and reference diverged outside the embedded contracts at height %d", role, V.Height()))
+		return false
+	}
+	produce := func() bool {
+		skip := 0
+		if r.Intn(5) == 0 {
+			skip = 1 + r.Intn(2)
+		}
+		adv.budget = 2
+		adv.early = r.Intn(3) == 0
+		if R != nil && refAlive {
+			for _, b := range mirror {
+				if err := R.Bridge.AddAccountBlocks([]*nom.AccountBlock{b}); err != nil {
+					c.Inconclusive("reference producer refuses a user block the producer accepted: " + err.Error())
+					return false
+				}
+			}
+		}
+		mirror = mirror[:0]
+		if _, err := P.Produce(skip); err != nil {
+			c.Violation("producer-cannot-produce", map[string]interface{}{"err": c04Reason(err), "log": w.Log, "after_third_party_changed_its_pool": adv.touched && !followerVictim})
+			return false
+		}
+		if adv.stop || failed {
+			return false
+		}
+		if R != nil && refAlive && !adv.touched {
+			if _, err := R.Produce(skip); err != nil {
+				c.Inconclusive("reference producer cannot produce: " + err.Error())
+				return false
+			}
+		}
+		if !compareRef("after a momentum") {
+			return false
+		}
+		if r.Intn(3) == 0 {
+			adv.afterGenerator()
+			if adv.stop {
+				return false
+			}
+		}
+		l, err := c01PoolLedger(V)
+		if err != nil {
+			c.Violation("ledger-scan-failed", err.Error())
+			return false
+		}
+		return c04OracleEx(c, l, role+" incl. pool, third party offering contract receives", false)
+	}
+	nMomentums := 14 + r.Intn(12)
+	for i := 0; i < nMomentums; i++ {
+		w.Step(5)
+		for k := r.Intn(3); k > 0; k-- {
+			c04IdenticalCalls(c, P, r, w.Users)
+		}
+		if !produce() {
+			return
+		}
+		if r.Intn(9) == 0 {
+			// the pool is lost (user blocks and unconfirmed contract receives); the inbox entries are still waiting
+			if followerVictim {
+				V.Restart()
+			} else {
+				P.Restart()
+				if refAlive {
+					R.Restart()
+				}
+				mirror = mirror[:0]
+			}
+			c.Count("inbox_restarts_with_pooled_receives", 1)
+		}
+	}
+	// let the chain come to rest: no new sends, until a momentum confirms nothing and nothing is pooled
+	quiet := false
+	for i := 0; i < 10 && !quiet; i++ {
+		if !produce() {
+			return
+		}
+		quiet = len(P.Chain.GetAllUncommittedAccountBlocks()) == 0 && len(P.Frontier().Content) == 0
+	}
+	if !quiet {
+		c.Count("inbox_histories_not_quiescent", 1)
+	}
+	F := V
+	if !followerVictim {
+		F = simnet.Open("F", base+"/F", simnet.MockGenesis(), nil)
+		defer F.Stop()
+		if err := F.SyncFrom(P, 1+r.Intn(20)); err != nil {
+			c.Violation("follower-refuses-producers-momentum", map[string]interface{}{"err": c04Reason(err), "after_third_party_changed_its_pool": adv.touched})
+			return
+		}
+	}
+	if F.Height() != P.Height() {
+		c.Violation("follower-behind-producer", map[string]interface{}{"follower": F.Height(), "producer": P.Height()})
+		return
+	}
+	for _, when := range []string{"follower at the end (third party offering contract receives to the " + role + ")", "the same follower after restart"} {
+		l, err := scan.Scan(F.Mgr.Frontier())
+		if err != nil {
+			c.Violation("ledger-scan-failed", err.Error())
+			return
+		}
+		if !c04OracleEx(c, l, when, quiet) {
+			return
+		}
+		F.Restart()
+	}
+	if refAlive && !adv.touched {
+		lp, e1 := scan.Scan(V.Mgr.Frontier())
+		lr, e2 := scan.Scan(ref().Mgr.Frontier())
+		if e1 != nil || e2 != nil {
+			c.Violation("ledger-scan-failed", fmt.Sprint(e1, e2))
+			return
+		}
+		sp, sr := c04ContractSummary(lp), c04ContractSummary(lr)
+		c.Eval(len(sp))
+		for k, vp := range sp {
+			if sr[k] != vp {
+				c.Violation("refused-contract-receives-changed-the-contract-ledger", map[string]interface{}{"when": "at the end", "role": role, "contract": k, "node_offered_the_blocks": vp, "reference_node": sr[k]})
+				return
+			}
+		}
+		c.Count("inbox_histories_equal_to_reference", 1)
+	}
+	c.Count("inbox_histories_offered_to_"+role, 1)
 }
